@@ -25,24 +25,25 @@ import (
 
 // recView is the analysed form of a Reconcile.
 type recView struct {
-	rec      *Reconcile
-	set      *asv1.StatefulSet // the set the control logic worked on (CtlSet) or the cached set
-	D        map[int32]bool
-	slots    map[int32]bool
-	claimed  map[int32]*v1.Pod // by ordinal (ord >= 0)
-	byName   map[string]*v1.Pod
-	revs     map[string]*appsv1.ControllerRevision // every revision this reconcile saw
-	listed   []*appsv1.ControllerRevision          // control-phase listing (dedup by name, first seen)
-	listedN  map[string]int                        // how often each name was listed in the control phase
-	updCand  map[string]bool
-	tmpl     string
-	ordered  bool
-	rolling  bool
-	onDelete bool
-	hasRU    bool
-	part     int32
-	deleting bool
-	anyFail  bool
+	rec         *Reconcile
+	set         *asv1.StatefulSet // the set the control logic worked on (CtlSet) or the cached set
+	D           map[int32]bool
+	slots       map[int32]bool
+	claimed     map[int32]*v1.Pod // by ordinal (ord >= 0)
+	byName      map[string]*v1.Pod
+	revs        map[string]*appsv1.ControllerRevision // every revision this reconcile saw
+	listed      []*appsv1.ControllerRevision          // control-phase listing (dedup by name, first seen)
+	listedN     map[string]int                        // how often each name was listed in the control phase
+	listedFirst map[string]*appsv1.ControllerRevision
+	updCand     map[string]bool
+	tmpl        string
+	ordered     bool
+	rolling     bool
+	onDelete    bool
+	hasRU       bool
+	part        int32
+	deleting    bool
+	anyFail     bool
 }
 
 func (s *Sim) checkReconcile(rec *Reconcile) {
@@ -130,7 +131,7 @@ func panicSite(stack string) string {
 }
 
 func (s *Sim) view(rec *Reconcile) *recView {
-	v := &recView{rec: rec, claimed: map[int32]*v1.Pod{}, byName: map[string]*v1.Pod{}, revs: map[string]*appsv1.ControllerRevision{}, listedN: map[string]int{}, updCand: map[string]bool{}}
+	v := &recView{rec: rec, claimed: map[int32]*v1.Pod{}, byName: map[string]*v1.Pod{}, revs: map[string]*appsv1.ControllerRevision{}, listedN: map[string]int{}, updCand: map[string]bool{}, listedFirst: map[string]*appsv1.ControllerRevision{}}
 	v.set = rec.CacheSet
 	if rec.CtlSet != nil {
 		v.set = rec.CtlSet
@@ -174,6 +175,7 @@ func (s *Sim) view(rec *Reconcile) *recView {
 				if rec.CtlCalled && i >= rec.CtlCallIdx {
 					if v.listedN[r.Name] == 0 {
 						v.listed = append(v.listed, r)
+						v.listedFirst[r.Name] = r
 					}
 					v.listedN[r.Name]++
 				}
@@ -261,10 +263,17 @@ func (s *Sim) checkPreControl(v *recView) {
 	// then every uncached read that preceded the call
 	deletingNow := cs.DeletionTimestamp != nil
 	seenRev := map[string]*appsv1.ControllerRevision{} // revisions as this reconcile last saw them
+	okRev := map[string]bool{}                         // seen at least once as an orphan or as controlled by this set
+	noteRev := func(r *appsv1.ControllerRevision) {
+		seenRev[r.Name] = r
+		if ref := controllerOf(r); ref == nil || ref.UID == cs.UID {
+			okRev[r.Name] = true
+		}
+	}
 	for _, c := range rec.Calls[:end] {
 		if c.Kind == KRev && c.Err == nil {
 			for _, o := range c.OutList {
-				seenRev[o.GetName()] = o.(*appsv1.ControllerRevision)
+				noteRev(o.(*appsv1.ControllerRevision))
 			}
 		}
 		switch {
@@ -337,14 +346,14 @@ func (s *Sim) checkPreControl(v *recView) {
 			// judged on the revision as this reconcile last saw it (its listing),
 			// not on what it has become since
 			if pre := seenRev[c.Name]; pre != nil {
-				if r := controllerOf(pre); r != nil && r.UID != cs.UID {
+				if r := controllerOf(pre); r != nil && r.UID != cs.UID && !okRev[c.Name] {
 					s.violate("C10", "C10.foreign-touched", "revision-"+c.Verb, fmt.Sprintf("%s on revision %s controlled by %s %s", c.Verb, c.Name, r.Kind, r.UID))
 				}
 			} else {
 				s.violate("C10", "C10.foreign-touched", "revision-unlisted-"+c.Verb, fmt.Sprintf("%s on revision %s which this reconcile never listed", c.Verb, c.Name))
 			}
 			if c.Err == nil && c.Out != nil {
-				seenRev[c.Name] = c.Out.(*appsv1.ControllerRevision)
+				noteRev(c.Out.(*appsv1.ControllerRevision))
 			}
 			if deletingNow {
 				s.violate("C11", "C11.deleting-adoption", "revision-"+c.Verb, fmt.Sprintf("set %s is being deleted but revision %s was written (%s)", cs.Name, c.Name, c.Verb))
@@ -937,10 +946,12 @@ func (s *Sim) checkRevisions(v *recView) {
 			}
 		case "update":
 			s.count("probe.revision_rollback_renumber")
-			if pre := c.Pre; pre != nil {
-				if ref := controllerOf(pre); ref == nil || ref.UID != set.UID {
-					s.violate("C10", "C10.foreign-touched", "revision-renumber", fmt.Sprintf("renumbered revision %s which this set does not control", c.Name))
+			if r := v.listedFirst[c.Name]; r != nil {
+				if ref := controllerOf(r); ref != nil && ref.UID != set.UID {
+					s.violate("C10", "C10.foreign-touched", "revision-renumber", fmt.Sprintf("renumbered revision %s which is controlled by %s %s", c.Name, ref.Kind, ref.UID))
 				}
+			} else {
+				s.violate("C10", "C10.foreign-touched", "revision-renumber-unlisted", fmt.Sprintf("renumbered revision %s which was not listed", c.Name))
 			}
 		case "patch":
 			s.violate("C10", "C10.foreign-touched", "revision-patch-in-control", fmt.Sprintf("unexpected revision patch %s", c.Name))
@@ -962,7 +973,7 @@ func (s *Sim) checkRevisions(v *recView) {
 	}
 	// rollback re-use: the update revision carries the highest revision number
 	for _, r := range v.listed {
-		if ref := controllerOf(r); ref == nil || ref.UID != set.UID {
+		if ref := controllerOf(r); ref != nil && ref.UID != set.UID {
 			continue // not part of this set's history
 		}
 		if r.Name != upd.Name && r.Revision > upd.Revision {
@@ -1034,9 +1045,13 @@ func (s *Sim) checkTruncation(v *recView) {
 		}
 	}
 	var unused []*appsv1.ControllerRevision
-	for _, r := range v.listed {
+	member := func(r *appsv1.ControllerRevision) bool {
+		// the set's history: revisions it controls, and orphans it may adopt
 		ref := controllerOf(r)
-		if ref != nil && ref.UID == set.UID && !live[r.Name] {
+		return ref == nil || ref.UID == set.UID
+	}
+	for _, r := range v.listed {
+		if member(r) && !live[r.Name] {
 			unused = append(unused, r)
 		}
 		if v.listedN[r.Name] > 1 {
@@ -1071,12 +1086,12 @@ func (s *Sim) checkTruncation(v *recView) {
 			s.violate("C13", "C13.delete-foreign", "unknown", fmt.Sprintf("deleted revision %s which was never listed", c.Name))
 			continue
 		}
-		if ref := controllerOf(r); ref == nil || ref.UID != set.UID {
-			who := "nobody"
-			if ref != nil {
-				who = ref.Kind + "/" + string(ref.UID)
-			}
-			s.violate("C13", "C13.delete-foreign", map[bool]string{true: "orphan", false: "other-owner"}[ref == nil], fmt.Sprintf("deleted revision %s controlled by %s", c.Name, who))
+		if r2 := v.listedFirst[c.Name]; r2 != nil {
+			r = r2
+		}
+		if !member(r) {
+			ref := controllerOf(r)
+			s.violate("C13", "C13.delete-foreign", "other-owner", fmt.Sprintf("deleted revision %s controlled by %s/%s", c.Name, ref.Kind, ref.UID))
 			continue
 		}
 		if live[c.Name] {
